@@ -35,7 +35,9 @@ PEERS = [["10.0.0.9", 40001], ["192.168.1.7", 40002], ["::1", 40003], ["127.0.0.
 ALLOW = [["127.0.0.1", "::1"], ["10.0.0.9"], ["*"], ["10.0.0.1", "10.0.0.9"], []]
 FWD = [["SCRIPT_NAME", "PATH_INFO"], ["SCRIPT_NAME", "REMOTE_USER"], ["*"], ["X_FORWARDED_FOR"], []]
 SSH = [{"X-FORWARDED-PROTOCOL": "ssl", "X-FORWARDED-PROTO": "https", "X-FORWARDED-SSL": "on"},
-       {"X-FORWARDED-PROTO": "https"}, {"X-SECURE": "yes", "X-FORWARDED-SSL": "on"}]
+       {"X-FORWARDED-PROTO": "https"}, {"X-SECURE": "yes", "X-FORWARDED-SSL": "on"},
+       # a key spelled with underscores: the field that matches it is still subject to the underscore policy (drop / refuse)
+       {"X_FORWARDED_PROTO": "https"}, {"X_FORWARDED_PROTO": "https", "X-FORWARDED-SSL": "on"}]
 NAMES = ["X-Forwarded-Proto", "X_Forwarded_Proto", "x-forwarded-proto", "X-Forwarded-Ssl", "X-Forwarded-Protocol",
          "X-Secure", "Script-Name", "Script_Name", "SCRIPT_NAME", "Path_Info", "X-Forwarded-For", "X_Forwarded_For",
          "X-Foo", "X_Foo", "x-foo", "X-FOO", "Remote_User", "X-Foo-Bar", "X_Foo-Bar", "X-Foo_Bar", "X_Forwarded-For",
